@@ -25,16 +25,16 @@ func c10Root(c *c10Case, log *Log) (tally.Scope, tally.TestScope) {
 	switch c.Flavour {
 	case 0:
 		root, _ := tally.NewRootScope(tally.ScopeOptions{Prefix: string(c.Prefix), Tags: tagsOf(c.Tags),
-			Reporter: &RecReporter{L: log, Caps: caps{true, true}}, OmitCardinalityMetrics: true}, 0)
+			Reporter: &RecReporter{L: log, Caps: caps{true, true}}, OmitCardinalityMetrics: true, SanitizeOptions: c.San.opts()}, 0)
 		return root, nil
 	case 1:
 		root, _ := tally.NewRootScope(tally.ScopeOptions{Prefix: string(c.Prefix), Tags: tagsOf(c.Tags),
-			CachedReporter: &RecCached{L: log, Caps: caps{true, true}}, OmitCardinalityMetrics: true}, 0)
+			CachedReporter: &RecCached{L: log, Caps: caps{true, true}}, OmitCardinalityMetrics: true, SanitizeOptions: c.San.opts()}, 0)
 		return root, nil
 	case 3:
 		root, _ := tally.NewRootScope(tally.ScopeOptions{Prefix: string(c.Prefix), Tags: tagsOf(c.Tags),
 			Reporter: &RecReporter{L: log, Caps: caps{true, true}}, CachedReporter: &RecCached{L: log, Caps: caps{true, true}},
-			OmitCardinalityMetrics: true}, 0)
+			OmitCardinalityMetrics: true, SanitizeOptions: c.San.opts()}, 0)
 		return root, nil
 	}
 	ts := tally.NewTestScope(string(c.Prefix), tagsOf(c.Tags))
@@ -46,7 +46,7 @@ func c10Root(c *c10Case, log *Log) (tally.Scope, tally.TestScope) {
 func c10Conc(c *c10Case) (lin []c10Op, in []Ev, obs []Ev, fail string) {
 	log := &Log{}
 	root, ts := c10Root(c, log)
-	in = append(in, Ev{K: 40, S: nameTags(string(c.Prefix), tagsOf(c.Tags))})
+	in = append(in, Ev{K: 40, I: c.San.ints(), S: nameTags(string(c.Prefix), tagsOf(c.Tags))})
 	bk := newBook(c)
 	scopes := []tally.Scope{root}
 	failf := func(f string, a ...interface{}) {
